@@ -198,7 +198,7 @@ func (w *fileWriter) Commit(ctx context.Context, count int64) error {
 	var b [8]byte
 	binary.LittleEndian.PutUint64(b[:], uint64(count))
 	if _, err := w.Write(b[:]); err != nil {
-		return nil
+		return err
 	}
 	return closeFile(ctx, w.File)
 }
